@@ -37,6 +37,106 @@ var guardTable = map[string][]string{
 	"simpleMaxSubscriptionsMiddlewareBaseCtxValue": {"subs"},
 }
 
+// autoGuard: rows inferred for structs with a mutex that the confirmed table does not know
+// (a type a later change introduced). Every field that can change after construction, or
+// that refers to something that can, is taken to be guarded: maps, slices, channels,
+// interfaces and pointers — except pointers to types that synchronise themselves (a struct
+// with its own mutex, sync.* and sync/atomic types) — and any other field that is assigned
+// outside the function that allocates the struct. This is the strictest reading (every such
+// access holds the lock); code that satisfies it is race-free on those fields, code that
+// does not is reported for confirmation.
+var autoGuard = map[*core.Program]map[string][]string{}
+
+func selfSynchronised(t types.Type, depth int) bool {
+	if depth > 3 {
+		return false
+	}
+	ts := types.TypeString(t, nil)
+	if strings.HasPrefix(ts, "sync.") || strings.HasPrefix(ts, "sync/atomic.") || strings.HasPrefix(ts, "*sync.") || strings.HasPrefix(ts, "*sync/atomic.") {
+		return true
+	}
+	if p, ok := t.Underlying().(*types.Pointer); ok {
+		t = p.Elem()
+	}
+	if st, ok := t.Underlying().(*types.Struct); ok {
+		return mutexField(st) != ""
+	}
+	return false
+}
+
+func guardedFieldsOf(c *core.Ctx, name string) ([]string, bool) {
+	if f, ok := guardTable[name]; ok {
+		return f, true
+	}
+	f, ok := autoGuardTable(c)[name]
+	return f, ok
+}
+
+func autoGuardTable(c *core.Ctx) map[string][]string {
+	P := c.P
+	if t, ok := autoGuard[P]; ok {
+		return t
+	}
+	t := map[string][]string{}
+	autoGuard[P] = t
+	// fields assigned outside a constructor
+	assigned := map[string]bool{}
+	for _, fn := range P.ModFuncs {
+		an.Instrs(fn, func(in ssa.Instruction) {
+			st, ok := in.(*ssa.Store)
+			if !ok {
+				return
+			}
+			fa, ok := st.Addr.(*ssa.FieldAddr)
+			if !ok || freshBase(fa) {
+				return
+			}
+			if n, s := structOf(fa); n != nil && s != nil {
+				assigned[n.Obj().Name()+"."+an.FieldNameHook(s, fa.Field)] = true
+			}
+		})
+	}
+	for _, pkg := range []*ssa.Package{P.Root, P.Sqlite, P.Prom} {
+		sc := pkg.Pkg.Scope()
+		for _, n := range sc.Names() {
+			tn, ok := sc.Lookup(n).(*types.TypeName)
+			if !ok {
+				continue
+			}
+			s, ok := tn.Type().Underlying().(*types.Struct)
+			if !ok || mutexField(s) == "" {
+				continue
+			}
+			if _, confirmed := guardTable[n]; confirmed {
+				continue
+			}
+			fields := []string{}
+			for i := 0; i < s.NumFields(); i++ {
+				ft := s.Field(i).Type()
+				if isMu, _ := isMutexType(ft); isMu || selfSynchronised(ft, 0) {
+					continue
+				}
+				fname := an.FieldNameHook(s, i)
+				switch ft.Underlying().(type) {
+				case *types.Map, *types.Slice, *types.Chan, *types.Interface, *types.Pointer:
+					fields = append(fields, fname)
+				default:
+					if assigned[n+"."+fname] {
+						fields = append(fields, fname)
+					}
+				}
+			}
+			t[n] = fields
+		}
+	}
+	return t
+}
+
+func isConfirmedRow(typ string) bool {
+	_, ok := guardTable[typ]
+	return ok
+}
+
 func guardProps(typ string) []string {
 	switch typ {
 	case "EventCache":
@@ -52,6 +152,11 @@ func guardProps(typ string) []string {
 }
 
 var writeMethods = map[string]bool{"Set": true, "Del": true, "Clear": true, "Add": true, "Delete": true}
+
+// readOnlyMethods: methods of library containers that do not change the container (for
+// inferred rows, where every other method called on a guarded field counts as a write:
+// lru Get, for one, moves the entry to the front).
+var readOnlyMethods = map[string]bool{"Len": true, "Contains": true, "Peek": true, "Keys": true, "Values": true, "Cap": true, "Has": true, "String": true}
 
 func isMutexType(t types.Type) (bool, bool) {
 	s := types.TypeString(t, nil)
@@ -289,7 +394,7 @@ type fieldAccess struct {
 }
 
 // guardedAccesses lists reads/writes of guarded fields in fn.
-func guardedAccesses(fn *ssa.Function) []fieldAccess {
+func guardedAccesses(c *core.Ctx, fn *ssa.Function) []fieldAccess {
 	var out []fieldAccess
 	an.Instrs(fn, func(in ssa.Instruction) {
 		fa, ok := in.(*ssa.FieldAddr)
@@ -300,7 +405,9 @@ func guardedAccesses(fn *ssa.Function) []fieldAccess {
 		if n == nil || s == nil {
 			return
 		}
-		fields, ok := guardTable[n.Obj().Name()]
+		fields, ok := guardedFieldsOf(c, n.Obj().Name())
+		_, confirmed := guardTable[n.Obj().Name()]
+		auto := !confirmed // inferred row: any method called on the field's value may change it
 		if !ok {
 			return
 		}
@@ -336,7 +443,7 @@ func guardedAccesses(fn *ssa.Function) []fieldAccess {
 							if b, ok := y.Call.Value.(*ssa.Builtin); ok && b.Name() == "delete" && y.Call.Args[0] == ssa.Value(x) {
 								acc.write, acc.what = true, "map delete"
 							}
-							if sc := an.StaticCallee(&y.Call); sc != nil && len(y.Call.Args) > 0 && y.Call.Args[0] == ssa.Value(x) && writeMethods[sc.Name()] {
+							if sc := an.StaticCallee(&y.Call); sc != nil && len(y.Call.Args) > 0 && y.Call.Args[0] == ssa.Value(x) && (writeMethods[sc.Name()] || auto && !readOnlyMethods[sc.Name()]) {
 								acc.write, acc.what = true, "call "+sc.Name()
 							}
 						case *ssa.Lookup:
@@ -399,7 +506,9 @@ func runLockGuard(c *core.Ctx) {
 			}
 			seen[n] = true
 			if _, ok := guardTable[n]; !ok {
-				c.Unknown(nil, n, "guard-table", P.Pos(tn.Pos()), "struct "+n+" has a mutex but is not in the confirmed guarded-field table: confirm which fields it guards and add a row")
+				// a type the confirmed table does not know: the strictest row is inferred
+				// (autoGuardTable) and checked like a confirmed one
+				c.Trivial(nil, n, "guard-table", P.Pos(tn.Pos()), fmt.Sprintf("struct %s is not in the confirmed table: inferred row %v (every field that can change after construction)", n, autoGuardTable(c)[n]))
 			}
 		}
 	}
@@ -416,11 +525,12 @@ func runLockGuard(c *core.Ctx) {
 		bad            []string
 		modes          map[string]bool
 		props          []string
+		auto           bool
 	}
 	groups := map[string]*agg{}
 	var order []string
 	for _, fn := range libFuncs(c) {
-		accs := guardedAccesses(fn)
+		accs := guardedAccesses(c, fn)
 		if len(accs) == 0 {
 			continue
 		}
@@ -448,8 +558,10 @@ func runLockGuard(c *core.Ctx) {
 			g.modes[mode.String()] = true
 			switch {
 			case mode == lockNone:
+				g.auto = !isConfirmedRow(a.typ)
 				g.bad = append(g.bad, fmt.Sprintf("%s (%s) at %s without %s held on any path from an exported entry", kind, a.what, P.Pos(a.fa.Pos()), mu))
 			case a.write && mode != lockExclusive:
+				g.auto = !isConfirmedRow(a.typ)
 				g.bad = append(g.bad, fmt.Sprintf("write (%s) at %s under the shared lock only", a.what, P.Pos(a.fa.Pos())))
 			}
 		}
@@ -463,7 +575,9 @@ func runLockGuard(c *core.Ctx) {
 			ms = append(ms, m)
 		}
 		sort.Strings(ms)
-		if len(g.bad) > 0 {
+		if len(g.bad) > 0 && g.auto {
+			c.Unknown(g.props, g.fn, construct, g.pos, strings.Join(g.bad, "; ")+": the struct is not in the confirmed guarded-field table and its inferred row (every field that can change after construction is guarded by its mutex) does not hold here: confirm which fields the mutex guards")
+		} else if len(g.bad) > 0 {
 			c.Bad(g.props, g.fn, construct, g.pos, strings.Join(g.bad, "; ")+": a concurrent session can observe or corrupt the structure mid-update (data race)")
 		} else {
 			c.OK(g.props, g.fn, construct, g.pos, fmt.Sprintf("%d access(es), lock held: %s", g.n, strings.Join(ms, "/")))
@@ -706,7 +820,7 @@ func lockSummaries(c *core.Ctx) map[*ssa.Function][]acquisition {
 func runLockEscape(c *core.Ctx) {
 	P := c.P
 	for _, fn := range libFuncs(c) {
-		for _, a := range guardedAccesses(fn) {
+		for _, a := range guardedAccesses(c, fn) {
 			if freshBase(a.fa) || a.fa.Referrers() == nil {
 				continue
 			}
@@ -825,19 +939,40 @@ func privateCell(v ssa.Value, depth int) bool {
 	case *ssa.FreeVar:
 		return privateCell(b, depth+1)
 	case *ssa.Alloc:
+		var published []ssa.Instruction
+		var writers []ssa.Instruction
 		for _, r := range *b.Referrers() {
 			switch x := r.(type) {
 			case *ssa.Store:
 				if x.Addr != ssa.Value(b) {
 					return false // the address itself is stored somewhere
 				}
+				writers = append(writers, x)
 			case *ssa.UnOp, *ssa.DebugRef:
 			case *ssa.MakeClosure:
 				if !closureCalledSynchronously(x, 0) {
 					return false
 				}
+				writers = append(writers, x)
+			case *ssa.Call:
+				// built in private, then published once: `p.Store(&cell)` on a sync/atomic
+				// pointer. Until then the cell is the builder's own; that every write to it
+				// (and every closure that can write it) comes before is checked below.
+				if n := an.CalleeName(&x.Call); strings.HasPrefix(n, "(*sync/atomic.Pointer[") && strings.HasSuffix(n, ".Store") && len(x.Call.Args) == 2 && x.Call.Args[1] == ssa.Value(b) {
+					published = append(published, x)
+					continue
+				}
+				return false
 			default:
 				return false
+			}
+		}
+		for _, pub := range published {
+			for _, w := range writers {
+				// w before pub on every path, and pub is not inside a loop: w cannot run again after it
+				if !an.InstrDominates(w, pub) || an.LoopHeaderOf(pub.Block()) != nil {
+					return false
+				}
 			}
 		}
 		return true
